@@ -125,6 +125,18 @@ CHECKS = {
              note=T_BASE + '; T4 base64 inverse pair (assumed model of the stdlib); crc16 by its C18 contract',
              technique='contracts on the real functions, symbolic execution (uninterpreted crc16/base64 by contract), bit-vector linearity lemma, exhaustive finite syndrome table; z3',
              design_ref='DESIGN.md §5 C13'),
+ 'C17': dict(category='other',
+             text='Deductive: per value kind (null, integers over the whole 257-bit range split by magnitude class, cell, slice, builder, '
+                  'nan) VmStackValue.serialize emits exactly the block.tlb encoding (tinyint#01 iff the value fits int64) and deserialize '
+                  'inverts every such encoding followed by arbitrary data; tuples of length 0..5 incl. nesting and stacks of depth 0..4 '
+                  'against the schema chaining, plus the UNBOUNDED-depth modular step of the stack list (recursive call replaced by a '
+                  'recording stub); the eight continuation kinds without control data; frames: the caller\'s lists, tuples (nested too) and '
+                  'slices are untouched, serialising twice gives the same cell, parsing twice gives independent tuples.  One recorded '
+                  'KNOWN FINDING (vmc_std / vmc_envelope with control data do not round-trip) keeps two units undischarged, hence level '
+                  'other.  A random nested-stack round trip is the bounded stand-in.',
+             note=T_BASE + '; see KNOWN_FINDINGS.txt for the control-data finding',
+             technique='contracts on the real functions, symbolic execution over all paths, recursion replaced by contract stubs for the chaining step, z3 (LIA)',
+             design_ref='DESIGN.md §5 C17'),
  'C18': dict(category='proof',
              text='Unbounded proof for every byte string: VCs generated from the AST of the real crc16/crc32c (tables, loop body, init, '
                   'final xor, byte order) and discharged by z3 in the bit-vector theory: each table entry, and the loop body for ALL '
